@@ -28,6 +28,9 @@ pub enum Event {
     Close { after: u8 },
     /// Receiver is dropped after having received n messages.
     DropRx { after: u8 },
+    /// Receiver calls close() after n messages, receives up to `more` further items and is then
+    /// dropped: the sender first learns of a graceful close and then of the drop.
+    CloseThenDrop { after: u8, more: u8 },
     /// Sender is dropped after k messages; `mid` = inside the next (chunked) message.
     DropTx { after: u8, mid: bool },
     /// Transport cut after k frames A->B.
@@ -66,6 +69,7 @@ pub fn strategy(tier: Tier) -> BoxedStrategy<Case> {
     let event = prop_oneof![
         3 => (0u8..=12).prop_map(|after| Event::Close { after }),
         2 => (0u8..=12).prop_map(|after| Event::DropRx { after }),
+        2 => (0u8..=12, 0u8..=3).prop_map(|(after, more)| Event::CloseThenDrop { after, more }),
         3 => (0u8..=12, any::<bool>()).prop_map(|(after, mid)| Event::DropTx { after, mid }),
         1 => (0u16..=60).prop_map(|after| Event::Cut { after }),
     ];
@@ -243,6 +247,7 @@ async fn execute_port(case: &Case) -> PortOut {
             let mut got = 0usize;
             let mut k = 0usize;
             let mut closed = false;
+            let mut since_close = 0usize;
             loop {
                 match &event {
                     Event::Close { after } if !closed && got >= *after as usize => {
@@ -253,13 +258,39 @@ async fn execute_port(case: &Case) -> PortOut {
                         drop(rx);
                         return;
                     }
+                    Event::CloseThenDrop { after, more } if got >= *after as usize => {
+                        if !closed {
+                            rx.close().await;
+                            closed = true;
+                            since_close = 0;
+                        } else if since_close >= *more as usize {
+                            drop(rx);
+                            return;
+                        }
+                    }
                     _ => {}
                 }
+                since_close += 1;
                 if slow {
                     tape_pause(&tape, true).await;
                 }
                 let mode = modes[k % modes.len()];
                 k += 1;
+                if closed && matches!(event, Event::CloseThenDrop { .. }) {
+                    // After its close() the receiver does not wait for ever for traffic that the
+                    // sender no longer produces: it takes what arrives within 20 virtual s, then goes.
+                    match sim::within(20, rx.recv_any()).await {
+                        Ok(Ok(Some(Received::Data(b)))) => {
+                            got += 1;
+                            rlog.lock().unwrap().push(RRes::Msg(b.into()));
+                            continue;
+                        }
+                        _ => {
+                            drop(rx);
+                            return;
+                        }
+                    }
+                }
                 let item = match mode {
                     RMode::Recv => match rx.recv().await {
                         Ok(Some(b)) => RRes::Msg(b.into()),
@@ -321,7 +352,7 @@ async fn execute_port(case: &Case) -> PortOut {
     };
     // Classification checks that need the sender still alive.
     match &case.event {
-        Event::Close { .. } | Event::DropRx { .. } => {
+        Event::Close { .. } | Event::DropRx { .. } | Event::CloseThenDrop { .. } => {
             if let Some(tx) = tx_back.as_mut() {
                 // Quiescence, then the condition must be observable.
                 tokio::time::sleep(std::time::Duration::from_secs(200 + 60 * case.sched.max_delay_ms(gen::delay_cap_ms(&case.cfg_a, &case.cfg_b)) / 1000)).await;
@@ -329,7 +360,7 @@ async fn execute_port(case: &Case) -> PortOut {
                     let r = rlog.lock().unwrap();
                     let got = r.iter().filter(|x| matches!(x, RRes::Msg(_) | RRes::TooBig)).count();
                     let after = match &case.event {
-                        Event::Close { after } | Event::DropRx { after } => *after as usize,
+                        Event::Close { after } | Event::DropRx { after } | Event::CloseThenDrop { after, .. } => *after as usize,
                         _ => 0,
                     };
                     got >= after
@@ -431,6 +462,14 @@ async fn execute_port(case: &Case) -> PortOut {
                 out.fails.push(("C11/classification".into(), "send failed with Closed although the receiver neither closed nor dropped".into()));
             }
         }
+        Event::CloseThenDrop { .. } => {
+            // Sends may fail gracefully (between close and drop) or not (after the drop).
+            for x in &s {
+                if let SRes::ChMux = x {
+                    out.fails.push(("C11/classification".into(), "send failed with ChMux on a healthy connection".into()));
+                }
+            }
+        }
         Event::DropRx { .. } => {
             for x in &s {
                 match x {
@@ -446,7 +485,7 @@ async fn execute_port(case: &Case) -> PortOut {
     }
     // In flight: the event landed while the sender still had messages to send.
     out.in_flight = match &case.event {
-        Event::Close { after } | Event::DropRx { after } => (*after as usize) < case.msgs.len(),
+        Event::Close { after } | Event::DropRx { after } | Event::CloseThenDrop { after, .. } => (*after as usize) < case.msgs.len(),
         Event::DropTx { after, mid } => (*after as usize) < case.msgs.len() || *mid,
         Event::Cut { .. } => true,
     };
